@@ -10,6 +10,8 @@
 //!               observation per op: `ret=<..> w=<bytes the frontend wrote> wf=<idents of fds it attached>`
 //! ret := `ok[:value]` | `err.<class>` | `blocked`
 use crate::rawsock::*;
+use crate::rec_fe::{gettid, pending_bytes, thread_sleeping, QUIET_ROUNDS, WATCHDOG};
+use std::sync::atomic::{AtomicI32, Ordering};
 use crate::rec::*;
 use crate::util::*;
 use std::collections::HashMap;
@@ -248,6 +250,7 @@ pub fn run(line: &str) -> String {
     let mq = parse_hex_u64(kv(&head, "mq").unwrap_or("2"));
     let mode = kv(&head, "mode").unwrap_or("srv").to_string();
     let (fe_sock, other) = pair();
+    let fe_fd = fe_sock.as_raw_fd();
     let other_fd = other.as_raw_fd();
     let objs = Arc::new(Mutex::new(Objs { map: HashMap::new(), next: 1 }));
     let fe = Arc::new(Mutex::new(Some(Frontend::from_stream(fe_sock, mq))));
@@ -280,7 +283,11 @@ pub fn run(line: &str) -> String {
         let objs2 = objs.clone();
         let optoks: Vec<String> = toks.iter().filter(|t| !t.starts_with("h=") && !t.starts_with("r=")).cloned().collect();
         let sh2 = shared.clone();
+        let tid = Arc::new(AtomicI32::new(0));
+        let tid2 = tid.clone();
+        let mut quiet = 0u32;
         let th = std::thread::spawn(move || {
+            tid2.store(gettid(), Ordering::SeqCst);
             let mut g = fe2.lock().unwrap();
             // identities must be visible to the recording handler as soon as they are created
             let r = do_op(g.as_mut().unwrap(), &optoks, &objs2, &sh2);
@@ -297,8 +304,10 @@ pub fn run(line: &str) -> String {
             }
             // serve / collect
             if mode == "srv" {
-                shared.lock().unwrap().objs = objs.lock().unwrap().map.clone();
                 while handler.is_some() && readable(other_fd, 0) {
+                    // identities are registered before the request is written: a copy taken once the request is
+                    // readable contains every descriptor it carries (taken earlier it may race with their creation)
+                    shared.lock().unwrap().objs = objs.lock().unwrap().map.clone();
                     let r = handler.as_mut().unwrap().handle_request();
                     // the file the handler returned, for "same open file" checks
                     if r.is_err() {
@@ -363,7 +372,23 @@ pub fn run(line: &str) -> String {
                 }
                 continue;
             }
-            if start.elapsed() > Duration::from_millis(500) {
+            // `blocked` is decided by observation, not by a short timer (a loaded machine must not turn a slow call into
+            // `blocked`): the calling thread sleeps, nothing is queued on its socket, the other side has nothing left to
+            // read and (peer mode) has played its reply script — for QUIET_ROUNDS consecutive rounds; WATCHDOG is the fallback
+            let other_idle = if mode == "srv" { handler.is_none() || !readable(other_fd, 0) } else { other.is_none() || (!readable(other_fd, 0) && (replied || matches!(rscript.as_deref(), None | Some("-")))) };
+            if thread_sleeping(tid.load(Ordering::SeqCst)) && pending_bytes(fe_fd) == 0 && other_idle {
+                quiet += 1;
+                if quiet >= QUIET_ROUNDS {
+                    if let Ok(r) = rx.try_recv() {
+                        ret = Some(r);
+                        continue;
+                    }
+                    break;
+                }
+            } else {
+                quiet = 0;
+            }
+            if start.elapsed() > WATCHDOG {
                 break;
             }
             if mode == "srv" {
